@@ -7,6 +7,7 @@ package main
 import (
 	"fmt"
 	"math"
+	"sort"
 	"sync/atomic"
 
 	"github.com/deadsy/sdfx/render"
@@ -388,6 +389,18 @@ func main() {
 			}
 		}
 	}
+	// circles whose box (and lattice) is moved far from the origin: the two lattice steps round separately there
+	for _, ct := range []v2.Vec{{X: 10}, {X: 103.3, Y: -7.1}, {X: -0.37, Y: 1e4}} {
+		for _, n := range []int{7, 20, 50} {
+			for _, r := range renderers {
+				ct := ct
+				bb := sq(2.5, 2.5)
+				bb.Min, bb.Max = bb.Min.Add(ct), bb.Max.Add(ct)
+				ajobs = append(ajobs, ajob{fmt.Sprintf("circle R=1 centre %v (box moved with it)", ct), func(p v2.Vec) float64 { return p.Sub(ct).Length() - 1 }, bb, n, r,
+					func(h float64) float64 { return h*h/(8*(1-h))*(1+1e-9) + 1e-9*ct.Length() }, "circle"})
+			}
+		}
+	}
 	bx := sdf.Box2D(v2.Vec{X: 2, Y: 1}, 0)
 	rbx := sdf.Transform2D(sdf.Box2D(v2.Vec{X: 2, Y: 1}, 0.2), sdf.Rotate2d(sdf.DtoR(30)))
 	for _, s := range []struct {
@@ -479,6 +492,80 @@ func main() {
 				if !(ratio >= 3) {
 					c.Violation(r.name+"|perimeter-convergence-below-second-order", fmt.Sprintf("circle %v %s: perimeter error %g at n=%d, %g at n=%d (ratio %.2f < 3)", ct, r.name, errs[k], ladder[k], errs[k+1], ladder[k+1], ratio),
 						map[string]any{"renderer": r.name, "ladder": ladder, "errors": errs})
+				}
+			}
+		}
+	}
+	// one writer handed to two renders in turn (every Render ends with Close, which is a flush): a consumer
+	// that keeps the delivered batches and reads them afterwards must find both contours, nothing else
+	circle := func(cx, cy, R float64) boxed {
+		return boxed{func(p v2.Vec) float64 { return math.Hypot(p.X-cx, p.Y-cy) - R }, sdf.Box2{Min: v2.Vec{X: cx - 1.25*R, Y: cy - 1.25*R}, Max: v2.Vec{X: cx + 1.25*R, Y: cy + 1.25*R}}}
+	}
+	segKeys := func(ls []*sdf.Line2) []string {
+		var k []string
+		for _, l := range ls {
+			k = append(k, fmt.Sprint(*l))
+		}
+		sort.Strings(k)
+		return k
+	}
+	for _, r := range renderers {
+		for _, n := range []int{4, 8, 16, 40} {
+			for _, sh := range [][2]boxed{{circle(-1.5, 0, 1), circle(1.5, 0.2, 0.7)}, {circle(0, 0, 0.3), circle(0, 0, 1)}, {circle(0, 0, 1), circle(0.1, 0, 1)}} {
+				want := append(lattice.Collect2(sh[0], r.mk(n)), lattice.Collect2(sh[1], r.mk(n))...)
+				out := make(chan []*sdf.Line2, 1<<16)
+				w := sdf.NewLine2Buffer(out)
+				rr := r.mk(n)
+				rr.Render(sh[0], w)
+				rr.Render(sh[1], w)
+				close(out)
+				var kept [][]*sdf.Line2
+				for b := range out {
+					kept = append(kept, b)
+				}
+				var got []*sdf.Line2
+				for _, b := range kept {
+					got = append(got, b...)
+				}
+				states++
+				segs += int64(len(got))
+				a, b := segKeys(got), segKeys(want)
+				same := len(a) == len(b)
+				for i := 0; same && i < len(a); i++ {
+					same = a[i] == b[i]
+				}
+				if !same {
+					c.Violation(r.name+"|two-renders-through-one-writer|segments-differ-from-the-two-contours", fmt.Sprintf("%s n=%d: %d segments collected through one Line2Buffer over two renders, %d when each render has its own writer (or same count, different segments)", r.name, n, len(a), len(b)),
+						map[string]any{"renderer": r.name, "meshCells": n, "first": sh[0].bb, "second": sh[1].bb})
+				}
+			}
+		}
+	}
+	// very large lattices (the quadtree's corner cache must not confuse corners: > 2^15 cells per axis)
+	for _, n := range vlib.Pick(c, []int{33000}, []int{33000, 40000, 70000}) {
+		for _, r := range renderers {
+			if r.name != "quadtree" {
+				continue
+			}
+			R := 1.0
+			ls := lattice.Collect2(boxed{func(p v2.Vec) float64 { return math.Hypot(p.X-0.01, p.Y+0.02) - R }, sq(2.5, 2.5)}, r.mk(n))
+			h := 2.5 / float64(n)
+			rp := mesh.Check2(ls, 1e-6*h)
+			states++
+			segs += int64(len(ls))
+			desc := map[string]any{"renderer": r.name, "meshCells": n, "shape": "circle R=1 centre (0.01,-0.02) in a 2.5 square"}
+			if rp.OddDegree > 0 {
+				c.Violation(r.name+"|large-lattice|odd-degree-endpoint", fmt.Sprintf("circle at meshCells=%d: %d end points of odd degree e.g. %v", n, rp.OddDegree, rp.OddVertex), desc)
+			}
+			if math.Abs(rp.Length-2*math.Pi*R) > 1e-6 {
+				c.Violation(r.name+"|large-lattice|perimeter", fmt.Sprintf("circle at meshCells=%d: total length %.9f, circumference %.9f", n, rp.Length, 2*math.Pi*R), desc)
+			}
+			for _, l := range ls {
+				for _, p := range l {
+					if fv := math.Abs(math.Hypot(p.X-0.01, p.Y+0.02) - R); fv > 2*h*h {
+						c.Violation(r.name+"|large-lattice|endpoint-off-boundary", fmt.Sprintf("circle at meshCells=%d: |f| = %g at %v (h=%g)", n, fv, p, h), desc)
+						break
+					}
 				}
 			}
 		}
